@@ -145,6 +145,13 @@ def gen_inputs(rng, p, n):
             if rng.random() < 0.5: b += rng.choice([[32], [10], [9], [32, 10]])
             if rng.random() < 0.03: b += rng.choice([[63], [0], [200]])
         ins.append((b, rng.choice([6, 7, 7, 3, 2, 4, 5])))
+    # always: lexemes cut short, so that the scanner walks beyond the last accepting state and has to fall back (overscan), in the
+    # middle of a line and after a newline - once verbose, once quiet
+    for ti, t in enumerate(p["terms"]):
+        tk = toks[ti]
+        if len(tk) < 2: continue
+        for tj in sorted({0, ti, len(toks) - 1}):
+            ins.append((tk[:-1] + toks[tj], 7)); ins.append((toks[tj] + [10, 32] + tk[:-1] + [32] + tk, 6))
     return ins
 
 def w_bytes(bs): return f"{len(bs)} " + " ".join(str(b) for b in bs)
